@@ -509,7 +509,7 @@ impl Check for C08 {
     }
     fn plan(&self, tier: Tier) -> Plan {
         let quick = tier == Tier::Quick;
-        Plan { cases: if quick { 3000 } else { 100_000 }, max_tape: 12, min_slots: 2, max_slots: 31, shard_cases: if quick { 190 } else { 700 }, max_shrink_iters: 1500, ..Plan::default() }
+        Plan { cases: if quick { 30_000 } else { 300_000 }, max_tape: 12, min_slots: 2, max_slots: 31, shard_cases: if quick { 1900 } else { 7000 }, max_shrink_iters: 1500, ..Plan::default() }
     }
     fn abort_is_violation(&self) -> bool {
         true
